@@ -15,7 +15,7 @@
      4. route -> journey    leg_ride, chain_reaches, valid_itinerary_journey (valid_itinerary_b ==> journey),
                             parse_legs_inv, steps_last_arr, totals_parse (what totals_ok_b says about rt_dep / rt_arr),
                             valid_totals_journey, limits_span, route_admissible_fwd / _rev, alternatives_journeys
-     5. calculateSingle     calc_single_journey, route_attained_fwd, route_attained_rev,
+     5. calculateSingle     calc_single_journey, calc_single_fwd_best, route_attained_fwd, route_attained_rev,
                             C03_attained, C04_attained, C05_attained, C03_optimum_le, C04_optimum_ge,
                             C03_decl_from_bound, C04_decl_from_bound, C05_decl_from_bound *)
 From Coq Require Import List ZArith Bool Arith Lia.
@@ -813,6 +813,43 @@ Proof.
     intros Hf. rewrite Htra. apply Hcap. exact Hf.
 Qed.
 
+(* a departure-time answer does not arrive after the arrival the forward pass selected (best_egress):
+   the reverse pass is seeded with it, and the clean-up rewrites only make the last alighting earlier.
+   With the optimality of best_egress (Proofs/FwdOpt.v, F_best_optimal) this is the bounding half of
+   C03_decl for an Ok answer. *)
+Theorem calc_single_fwd_best : forall d s p acc egr fresh r used,
+  wf_data_b d = true -> wf_tables_b d p acc egr = true -> wf_params_b p = true ->
+  calc_single d (conn_set d s) p acc egr fresh = Ok (r, used) ->
+  q_fwd p = true ->
+  exists fs best n0,
+    fwd_scan d p (mk_calc d p (conn_set d s) acc egr true true) false = Ok fs /\
+    best_egress p (mk_calc d p (conn_set d s) acc egr true true) fs = Some (best, n0) /\
+    rt_arr r <= best.
+Proof.
+  intros d s p acc egr fresh r used Hwf Htab Hp Hcalc Hf.
+  destruct (calc_single_ok_cap d s p acc egr fresh (r, used) Hwf Htab Hp Hcalc)
+    as (arr & bestdep & ar & legs & er & el & js1 & used' & Hj & Hopt & Hres & H0 & Hspan & Har & Her &
+        Hla & Harr & Hdir & (b1 & Hfb & Hfrom & Hcap)).
+  inversion Hres; subst r used'. clear Hres.
+  pose proof (RouteValid.wf_params_minw p Hp) as Hmw.
+  destruct (optimize_ends (OPT_FUEL d) d s p acc egr bestdep (walk_step ar) legs (walk_step er) b1 el js1 used
+                          Hwf Hmw Hj Hfb Hla Hopt)
+    as (legs' & el' & Ejs & Hfb' & Hla' & Harr' & Hto').
+  pose proof (optimize_preserves (OPT_FUEL d) d s p acc egr bestdep _ js1 used Hwf Hmw Hj Hopt) as Hj'.
+  subst js1.
+  pose proof Hj' as Hj2. apply journey_ok_iff in Hj2.
+  destruct Hj2 as (Ha & He & Hall & _).
+  assert (Hlegs : forall j, In j legs' -> is_leg j).
+  { intros j Hj0. rewrite forallb_forall in Hall.
+    destruct (jleg_ok_inv d s p j (Hall j Hj0)) as (b & x & t & tr & Hb & Hx & Ht & _).
+    exists b, x, t. auto. }
+  destruct (emit_shape d p bestdep (walk_step ar) legs' (walk_step er) el' Ha He Hlegs Hla')
+    as (_ & _ & Harr2).
+  rewrite Harr2. cbn [walk_step js_walk].
+  rewrite Hf in Hdir. destruct Hdir as (_ & fs & n0 & Hscan & Hbest).
+  exists fs, arr, n0. split; [exact Hscan|]. split; [exact Hbest|]. lia.
+Qed.
+
 (* C03, attained half: a departure-time answer's arrival is the arrival of an admissible journey *)
 Theorem route_attained_fwd : forall d s p acc egr fresh r used,
   wf_data_b d = true -> wf_tables_b d p acc egr = true -> wf_params_b p = true ->
@@ -967,6 +1004,7 @@ Print Assumptions journey_ok_journey.
 Print Assumptions valid_totals_journey.
 Print Assumptions alternatives_journeys.
 Print Assumptions calc_single_journey.
+Print Assumptions calc_single_fwd_best.
 Print Assumptions route_attained_fwd.
 Print Assumptions route_attained_rev.
 Print Assumptions C03_attained.
